@@ -12,13 +12,13 @@ void Bus::attach(Session &sess) {
 
 int Bus::find(const ref::Bytes &addr) const {
 	for (size_t i = 0; i < nodes.size(); i++)
-		if (nodes[i].addr == addr) return (int) i;
+		if (!nodes[i].gone && nodes[i].addr == addr) return (int) i;
 	return -1;
 }
 
 int Bus::node_of_board(const std::string &id) const {
 	for (size_t i = 0; i < nodes.size(); i++)
-		if (nodes[i].board_id == id) return (int) i;
+		if (!nodes[i].gone && nodes[i].board_id == id) return (int) i;
 	return -1;
 }
 
@@ -86,6 +86,7 @@ std::string Bus::describe() const {
 	if (capacity != 64) o << "capacity=" << (int) capacity << " ";
 	if (feature_mismatch) o << "feature-mismatch ";
 	if (table_change_at >= 0) o << "table-change-at-row=" << table_change_at << "x" << table_changes_left << " ";
+	if (drop_on_change >= 0) o << "node-" << drop_on_change << "-leaves-at-table-change ";
 	return o.str();
 }
 
@@ -183,6 +184,13 @@ void Bus::handle(const ref::Msg &m) {
 			table_changes_left--;
 			nodetab_version++;
 			n.tab_pos = 0;
+			if (drop_on_change > 0 && drop_on_change < (int) nodes.size() && !nodes[(size_t) drop_on_change].gone) {
+				// the node (a leaf directly below the root) leaves the bus: that is why the table changed
+				BusNode &g = nodes[(size_t) drop_on_change];
+				g.gone = true;
+				auto &ch = nodes[0].children;
+				ch.erase(std::remove(ch.begin(), ch.end(), drop_on_change), ch.end());
+			}
 			send_from(idx, M::NODETAB_COUNT, {(uint8_t) (1 + n.children.size())});
 		} else if (n.tab_pos < 1 + n.children.size()) {
 			send_from(idx, M::NODETAB, row(n.tab_pos));
@@ -206,9 +214,11 @@ void Bus::handle(const ref::Msg &m) {
 	case M::VENDOR_SET: case M::VENDOR_GET: send_from(idx, M::VENDOR, {1, 'a', 1, 'b'}); break;
 	case M::STRING_GET: case M::STRING_SET: send_from(idx, M::STRING, {d.size() > 0 ? d[0] : (uint8_t) 0, d.size() > 1 ? d[1] : (uint8_t) 0, 0}); break;
 	case M::BM_GET_RANGE:
-		if (d.size() >= 2 && d[1] > d[0]) {
-			uint8_t size = (uint8_t) (d[1] - d[0]);
+		if (d.size() >= 2) {
+			// a node always answers a range query (an empty or wrapped range is answered with one byte)
+			uint8_t size = d[1] > d[0] ? (uint8_t) (d[1] - d[0]) : 8;
 			if (size > 128) size = 128;
+			if (size < 8) size = 8;
 			ref::Bytes r = {d[0], size};
 			for (int i = 0; i < size / 8; i++) r.push_back(0);
 			send_from(idx, M::BM_MULTIPLE, r);
